@@ -48,6 +48,7 @@ def slice(ctx: fw.Ctx) -> fw.Outcome:
     for _ in range(ctx.n(150, 15_000)):
         src = gen.rand_src(rng, p)
         cases.append((src, gen.render(src, rng, p)))
+    cases += ic.far_cases(rng, ic.prof(garbage=0.0, exotic_pad=0.0, exotic_digits=0.0))  # ticks and lengths beyond 2^53, adjacent ticks
     ic.run(ctx, out, cases, project, lambda tl: [(t["tick"], t["lanes"]) for t in tl], "note ticks and lanes",
            lambda src: any(len(g.lanes) + g.tap + g.forced >= 2 for tr in src.tracks for g in tr.groups))
     ic.stable_under_reads(ctx, out, cases, "note events")
